@@ -1,8 +1,8 @@
 """C20 — LPDDR4 (and LPDDR5) PHY translate each DFI command into the matching CA sequence.
 
 Real code: litedram.phy.lpddr4.simphy.LPDDR4SimPHY (basephy, commands.DFIPhaseAdapter/Command, utils.CommandsPipeline/ConstBitSlip,
-output serialisers) observed at the CS/CA *pads* (sys8x domain); litedram.phy.lpddr5.simphy.LPDDR5SimPHY observed at the PHY's
-per-cycle CS/CA output words.  An independent decoder (pad stream -> commands) reconstructs what a DRAM would see.
+output serialisers) and DoubleRateLPDDR4SimPHY observed at the CS/CA *pads* (sys8x domain); litedram.phy.lpddr5.simphy.LPDDR5SimPHY
+observed at the PHY's per-cycle CS/CA output words and at its CK/CS/CA pads.  An independent decoder (pad stream -> commands) reconstructs what a DRAM would see.
 """
 import random
 
@@ -25,7 +25,9 @@ ASSUMPTIONS = [
     "DFI conventions of the project: MRS carries the mode-register address in bank and the operand in address; ZQC with bank = SpecialCmd selects MPC/MRR(/NOP); "
     "LPDDR5 column bits are address[i+4]; A10 is AP / all-banks",
     "a command is expected at the slot of its DFI phase plus a fixed latency (calibrated on the first command of the run, then held constant)",
-    "LPDDR4 observed at the CS/CA pads (sys and sys8x clocks phase aligned); LPDDR5 observed at the PHY's per-cycle CS/CA words before serialisation",
+    "LPDDR4 (single- and double-rate sim PHY) observed at the CS/CA pads (sys, sys2x, sys8x clocks phase aligned); LPDDR5 observed twice: at the PHY's "
+    "per-cycle CS/CA words before serialisation and at the CK/CS/CA pads (sys, sys2x, sys4x), CS and CA sampled at the rising CK edge and CA again at the "
+    "falling edge, as the device does",
 ]
 REAL = ["litedram.phy.lpddr4.simphy.LPDDR4SimPHY (LPDDR4PHY base, DFIPhaseAdapter/Command, CommandsPipeline, ConstBitSlip, Serializer)",
         "litedram.phy.lpddr5.simphy.LPDDR5SimPHY (LPDDR5PHY base, DFIPhaseAdapter/Command, command buffer)"]
@@ -356,7 +358,8 @@ def run_l5(scn):
     d = scn["dut"]
     masked = d["masked_write"]
     phy = LPDDR5SimPHY(sys_clk_freq=50e6, masked_write=masked)
-    sim = Sim(phy, {"sys": {"period": 8000, "phase": 0}})
+    # sys2x serialises CK and CS, sys4x serialises CA (DDR, centre aligned with CK); the pads are sampled every quarter CK period
+    sim = Sim(phy, {"sys": {"period": 8000, "phase": 0}, "sys2x": {"period": 4000, "phase": 0}, "sys4x": {"period": 2000, "phase": 0}})
     viol = Violations(sim)
     ix = sim.index
     S = sim.S
@@ -378,11 +381,37 @@ def run_l5(scn):
             cas, ras, we = KIND[c["k"]]
             sim.poke(ph["cs_n"], c.get("cs_n", 0)); sim.poke(ph["cas_n"], 1 - cas); sim.poke(ph["ras_n"], 1 - ras); sim.poke(ph["we_n"], 1 - we)
             sim.poke(ph["bank"], c["bank"]); sim.poke(ph["address"], c["addr"])
+    i_pck, i_pcs, i_pca = ix(phy.pads.ck), ix(phy.pads.cs), ix(phy.pads.ca)
+    quarters = []
+
+    def padmon(sim):
+        quarters.append((S[i_pck], S[i_pcs], S[i_pca]))
     sim.add_agent("sys", drv)
+    sim.add_agent("sys4x", padmon)
     sim.run(ncyc, "sys")
     got = l5_decode(cycles)
     for g_ in got:
         sim.ev("out", g_[0], g_[1], tuple(sorted((k_, str(v_)) for k_, v_ in g_[2].items())))
+    # what a DRAM sees: CS and CA[6:0] sampled at the rising CK edge, CA again at the falling edge
+    pad_cycles = []
+    unstable = None
+    cur = None
+    for n in range(1, len(quarters)):
+        ck0, ck1 = quarters[n - 1][0], quarters[n][0]
+        if ck0 == 0 and ck1 == 1:
+            if cur is not None:
+                pad_cycles.append((cur[0], cur[1], cur[1]))     # no falling edge seen (cannot happen with a running clock)
+            cur = [quarters[n][1], quarters[n][2]]
+            if quarters[n][1] and quarters[n - 1][2] != quarters[n][2] and unstable is None:
+                unstable = n
+        elif ck0 == 1 and ck1 == 0 and cur is not None:
+            pad_cycles.append((cur[0], cur[1], quarters[n][2]))
+            if cur[0] and quarters[n - 1][2] != quarters[n][2] and unstable is None:
+                unstable = n
+            cur = None
+    got_pads = l5_decode(pad_cycles)
+    for g_ in got_pads:
+        sim.ev("pad", g_[0], g_[1], tuple(sorted((k_, str(v_)) for k_, v_ in g_[2].items())))
     pres = []
     for c in sorted(cmds, key=lambda c: c["cyc"]):
         if c.get("cs_n", 0):
@@ -400,22 +429,30 @@ def run_l5(scn):
              "deselected_noise": sum(1 for c in cmds if c.get("cs_n", 0))}
     for k in KIND:
         stats["k_" + k] = sum(1 for c in cmds if c["k"] == k)
-    msg = None
-    if exp or got:
+    def compare(got, where):
+        if not (exp or got):
+            return None
         if not exp or not got:
-            msg = "PHY emitted %d command(s), %d expected" % (len(got), len(exp))
-        else:
-            L = got[0][0] - exp[0][0]
-            for j in range(max(len(exp), len(got))):
-                if j >= len(exp):
-                    msg = "extra command at cycle %d: %s %s" % (got[j][0], got[j][1], got[j][2]); break
-                if j >= len(got):
-                    msg = "command missing: %s %s presented in cycle %d" % (exp[j][1][0], exp[j][1][1], exp[j][0]); break
-                if (got[j][0] - L, got[j][1], got[j][2]) != (exp[j][0], exp[j][1][0], exp[j][1][1]):
-                    msg = ("command #%d: PHY outputs %s %s at cycle %d, DFI asked for %s %s in cycle %d (+%d)"
-                           % (j, got[j][1], got[j][2], got[j][0], exp[j][1][0], exp[j][1][1], exp[j][0], L)); break
+            return "%s: %d command(s) emitted, %d expected" % (where, len(got), len(exp))
+        L = got[0][0] - exp[0][0]
+        for j in range(max(len(exp), len(got))):
+            if j >= len(exp):
+                return "%s: extra command at cycle %d: %s %s" % (where, got[j][0], got[j][1], got[j][2])
+            if j >= len(got):
+                return "%s: command missing: %s %s presented in cycle %d" % (where, exp[j][1][0], exp[j][1][1], exp[j][0])
+            if (got[j][0] - L, got[j][1], got[j][2]) != (exp[j][0], exp[j][1][0], exp[j][1][1]):
+                return ("%s: command #%d is %s %s at cycle %d, DFI asked for %s %s in cycle %d (+%d)"
+                        % (where, j, got[j][1], got[j][2], got[j][0], exp[j][1][0], exp[j][1][1], exp[j][0], L))
+        return None
+    msg = compare(got, "PHY output words")
     if msg:
         viol.add("ca_sequence", msg)
+    msg = compare(got_pads, "CS/CA pads (sampled at the CK edges)")
+    if msg:
+        viol.add("ca_sequence_pads", msg)
+    elif unstable is not None:
+        viol.add("ca_sequence_pads", "CA changes at a CK edge while CS is high (quarter %d): not centre aligned" % unstable)
+    stats["decoded_at_pads"] = len(got_pads)
     return {"violations": viol.v, "stats": stats, "cycles": ncyc, "sim_ps": sim.now, "digest": sim.digest(),
             "nontrivial": len(got) >= 2, "states": ["l5 m%d" % int(masked)],
             "summary": {"variant": "lpddr5", "dut": d, "cmds": len(cmds), "decoded": len(got)}}
